@@ -127,7 +127,7 @@ def run(ck: Check) -> None:
         for op, args in calls:
             before = [snapshot(a) for a in args]
             line = impl.enc_case(op, args)
-            out = direct(impl, op, args, enc=rng.choice(["utf-8", "ascii"]))
+            out = direct(impl, op, args, enc=rng.choice(["utf-8", "ascii", "utf-8", "broken:none"]))
             after = [snapshot(a) for a in args]
             ck.evaluations += 1
             ck.oracle_checks += 1
